@@ -13,7 +13,7 @@ Theorem c16_by_name pf o R W Rt wfs rfs wvals rvals ts rest :
   (forall wf wv i ft, In (wf, wv) (combine wfs wvals) -> fexported wf = true ->
      find_field (fname wf) rfs 0 = Some (i, ft) ->
      ft = snd wf /\ nth i rvals (zero ft) = zero ft /\
-     simple_ty ft = true /\ reg_ok ft = true /\ no_ptr_to_nil wv = true) ->
+     simple_ty ft = true /\ no_ptr_to_nil wv = true) ->
   exists f, unm pf f o R Rt (GStruct rvals) (ts ++ rest)
             = Ok (GStruct (assign_by_name wfs rfs wvals rvals), rest).
 Proof. exact (by_name_partial pf o R W Rt wfs rfs wvals rvals ts rest). Qed.
@@ -28,7 +28,7 @@ Theorem c16_by_name_fuel pf o R W Rt wfs rfs wvals rvals ts rest f :
   (forall wf wv i ft, In (wf, wv) (combine wfs wvals) -> fexported wf = true ->
      find_field (fname wf) rfs 0 = Some (i, ft) ->
      ft = snd wf /\ nth i rvals (zero ft) = zero ft /\
-     simple_ty ft = true /\ reg_ok ft = true /\ no_ptr_to_nil wv = true) ->
+     simple_ty ft = true /\ no_ptr_to_nil wv = true) ->
   (2 * vsize (GStruct wvals) < f)%nat ->
   unm pf f o R Rt (GStruct rvals) (ts ++ rest) = Ok (GStruct (assign_by_name wfs rfs wvals rvals), rest).
 Proof. exact (by_name_fuel pf o R W Rt wfs rfs wvals rvals ts rest f). Qed.
@@ -63,12 +63,12 @@ Proof. exact (marshal_skip o t v ts rest). Qed.
 Theorem c16_merge_edge  :
   exists pf o R W Rt wfs rfs wvals rvals ts,
     strict o = false /\ underlying W = TStruct wfs /\ underlying Rt = TStruct rfs /\
-    wf_ty W = true /\ wf_ty Rt = true /\ simple_ty Rt = true /\ reg_ok Rt = true /\
+    wf_ty W = true /\ wf_ty Rt = true /\ simple_ty Rt = true /\
     has_type W (GStruct wvals) = true /\ has_type Rt (GStruct rvals) = true /\
     no_ptr_to_nil (GStruct wvals) = true /\ no_ptr_to_nil (GStruct rvals) = true /\
     (forall wf wv i ft, In (wf, wv) (combine wfs wvals) -> fexported wf = true ->
        find_field (fname wf) rfs 0 = Some (i, ft) ->
-       ft = snd wf /\ simple_ty ft = true /\ reg_ok ft = true /\ no_ptr_to_nil wv = true) /\
+       ft = snd wf /\ simple_ty ft = true /\ no_ptr_to_nil wv = true) /\
     marshal default_opts W (GStruct wvals) = Ok ts /\
     forall f, unm pf f o R Rt (GStruct rvals) (ts ++ []) <> Ok (GStruct (assign_by_name wfs rfs wvals rvals), []).
 Proof. exact (by_name_refuted ). Qed.
